@@ -665,7 +665,11 @@ def run(R):
                finding_probes=probes, layouts=len(jobs), samples=samples)
     return "proof", cov, ["the oracle of (1) is the library itself on a fresh context: a defect that is independent of history is out of scope (C01)",
                           "SADUMP, s390 and Xen formats have no writer: their cache paths are covered by the shared cache_get_page model only",
-                          "the LKCD block lists (pfn_block, gap tolerance, split) are tied to the contract-level index model by the differential stream only"]
+                          "the LKCD block lists (pfn_block, gap tolerance, split) are tied to the contract-level index model by the differential stream only",
+                          "the assembly of a page from several file cache blocks (fcache_get_chunk: contiguous slots versus the copy fall-back) "
+                          "is below the Hist model, which reads the file as a byte function (policy_irrelevant / policy_bytes): the ELF layouts "
+                          "with 8 KiB pages at unaligned file offsets (variant bigpage) exercise it on the implementation (history versus fresh "
+                          "context) and tie the page-level answers to the model"]
 
 
 def replay(R, path):
